@@ -544,6 +544,21 @@ func (n nilTrack) status(st string, v ssa.Value, at ssa.Instruction) (known, non
 	return false, false
 }
 
+// statusF is status with the engine's path facts taken into account (a merged
+// result of an inlined helper is a phi the facts know about).
+func (n nilTrack) statusF(st an.StateF, v ssa.Value, at ssa.Instruction) (known, nonNil bool) {
+	if known, nonNil = n.status(st.User, v, at); known {
+		return
+	}
+	switch st.FactOf(an.Unwrap(v)) {
+	case 'N':
+		return true, true
+	case 'Z':
+		return true, false
+	}
+	return false, false
+}
+
 // branch handles a nil test of an error value; handled=false means the condition is something else.
 func (n nilTrack) branch(st string, br *ssa.If, idx int) (out string, handled, feasible bool) {
 	x, trueNonNil, ok := nilTestOf(br.Cond)
@@ -698,4 +713,51 @@ func nameOf(o interface{ Name() string }) string {
 		}
 	}
 	return o.Name()
+}
+
+// isDebugLog reports whether the call is debug logging: a function of the
+// drpcdebug package, or a method named log whose body only reaches drpcdebug,
+// fmt and the callback it was given. Such calls have no effect on the protocol
+// state (and are compiled out without the debug tag).
+func isDebugLog(cc *ssa.CallCommon) bool {
+	f := cc.StaticCallee()
+	if f == nil {
+		return false
+	}
+	inDebug := func(fn *ssa.Function) bool {
+		p := fn.Pkg
+		if p == nil && fn.Object() != nil && fn.Object().Pkg() != nil {
+			return strings.HasSuffix(fn.Object().Pkg().Path(), "/drpcdebug")
+		}
+		return p != nil && strings.HasSuffix(p.Pkg.Path(), "/drpcdebug")
+	}
+	if inDebug(f) {
+		return true
+	}
+	if nameOf(f) != "log" || len(f.Blocks) == 0 {
+		return false
+	}
+	ok := true
+	an.Instrs(f, func(in ssa.Instruction) {
+		ci, isCall := in.(ssa.CallInstruction)
+		if !isCall {
+			return
+		}
+		c2 := ci.Common()
+		if callee := c2.StaticCallee(); callee != nil {
+			if inDebug(callee) {
+				return
+			}
+			if callee.Pkg != nil && callee.Pkg.Pkg.Path() == "fmt" {
+				return
+			}
+			ok = false
+			return
+		}
+		if _, isParam := c2.Value.(*ssa.Parameter); isParam && !c2.IsInvoke() {
+			return // the message callback
+		}
+		ok = false
+	})
+	return ok
 }
